@@ -204,8 +204,15 @@ extern "C" void harness_main() {
   };
   std::vector<std::pair<PictID, int>> userAdditions;     // number of constituents the user added to a result
   for (int step = 0; step < K; ++step) {
-    const int op = pick(5, "op");
+    const int op = pick(6, "op");
     switch (op) {
+    case 5: {   // the result document of an operation is closed (its stored result stays)
+      const PictID pid = opsList[(size_t)pick((int)opsList.size(), "close")];
+      if (!hasResult.count(pid) || unsaved.count(pid) || oss.Src()(pid)->src == nullptr) break;
+      sourceOf(pid).TriggerClose();
+      sym_reach("result-closed");
+      break;
+    }
     case 0: {   // announced formal change of a base operand
       const PictID p = pick(2, "edited") ? b2 : b1;
       schemaOf(p).Emplace(CstType::term, "X1\xE2\x88\xAAX1");
@@ -267,7 +274,7 @@ extern "C" void harness_main() {
       if (op == 3) { for (const auto q : opsList) { check(q); if (hasResult.count(q)) lastContent[q] = contentOf(q); } unsaved.clear(); sym_reach("executed-all"); }
       break;
     }
-    default: {   // the user adds a constituent of their own to an existing result
+    case 4: default: {   // the user adds a constituent of their own to an existing result
       const PictID pid = opsList[(size_t)pick((int)opsList.size(), "add-to")];
       if (!hasResult.count(pid) || oss.Src()(pid)->src == nullptr) break;
       schemaOf(pid).Emplace(CstType::term, "X1");
